@@ -23,6 +23,7 @@ def cmd_check(args):
         print(f'no pack for {args.prop}')
         return 3
     ck = Check(args.prop, tier=tier, seed=seed)
+    ck.no_evidence = args.no_evidence
     try:
         mod.build(ck)
     except Exception:                      # noqa: BLE001
@@ -78,6 +79,40 @@ def cmd_selfcheck(args):
     return 0
 
 
+def cmd_selftest(args):
+    """engine self-test: every seeded change under /verif/seeded/<id>/ is applied to a scratch copy of /repo/src and the
+    checks of the properties it breaks must report a VIOLATION (exit 1); the pristine copy must exit 0"""
+    import shutil
+    import subprocess
+    import tempfile
+    ids = args.ids or sorted(os.listdir(os.path.join(VERIF, 'seeded')))
+    bad = 0
+    for sid in ids:
+        sd = os.path.join(VERIF, 'seeded', sid)
+        if not os.path.exists(os.path.join(sd, 'patch.diff')):
+            continue
+        meta = json.load(open(os.path.join(sd, 'meta.json'))) if os.path.exists(os.path.join(sd, 'meta.json')) else {}
+        props = [meta.get('property', sid)] + list(meta.get('also_detected_by', []))
+        tmp = tempfile.mkdtemp(prefix='vf-selftest-', dir=os.path.expanduser('~/.cache') if os.path.isdir(os.path.expanduser('~/.cache')) else None)
+        try:
+            shutil.copytree(os.path.join(os.environ.get('VF_REPO', '/repo'), 'src'), os.path.join(tmp, 'src'))
+            r = subprocess.run(['patch', '-p1', '-s', '-i', os.path.join(sd, 'patch.diff')], cwd=tmp, capture_output=True, text=True)
+            if r.returncode != 0:
+                print(f'{sid}: patch does not apply: {r.stdout[-200:]}{r.stderr[-200:]}')
+                bad += 1
+                continue
+            for p in props:
+                env = dict(os.environ, VF_REPO=tmp, VF_SELFTEST='1')
+                r = subprocess.run([sys.executable, '-m', 'pyvc.cli', 'check', p, '--no-evidence'], cwd=VERIF, env=env,
+                                   capture_output=True, text=True)
+                verdict = 'detected' if r.returncode == 1 and 'VIOLATION' in r.stdout else f'NOT DETECTED (exit {r.returncode})'
+                print(f'seed {sid} against {p}: {verdict}')
+                bad += verdict != 'detected'
+        finally:
+            shutil.rmtree(tmp, ignore_errors=True)
+    return 1 if bad else 0
+
+
 def main():
     ap = argparse.ArgumentParser(prog='vf')
     sub = ap.add_subparsers(dest='cmd', required=True)
@@ -89,11 +124,14 @@ def main():
     c.add_argument('--show', default=None)
     c.add_argument('--job', default=None, help='run only the scenarios whose name#label contains this')
     c.add_argument('-v', '--verbose', action='store_true')
+    c.add_argument('--no-evidence', action='store_true', help='do not rewrite evidence/replay files (self-test runs)')
     r = sub.add_parser('replay')
     r.add_argument('path')
     sub.add_parser('selfcheck')
+    st = sub.add_parser('selftest')
+    st.add_argument('ids', nargs='*')
     a = ap.parse_args()
-    rc = {'check': cmd_check, 'replay': cmd_replay, 'selfcheck': cmd_selfcheck}[a.cmd](a)
+    rc = {'check': cmd_check, 'replay': cmd_replay, 'selfcheck': cmd_selfcheck, 'selftest': cmd_selftest}[a.cmd](a)
     sys.exit(rc)
 
 
